@@ -299,6 +299,9 @@ def coq_check(pid, timeout=1500):
     if res['forbidden']:
         res['failed'] = 'forbidden construct: ' + '; '.join(res['forbidden'][:5])
         return res
+    if not names:
+        res['failed'] = 'Properties.v states no theorem'
+        return res
     res['discharged'] = len(names)
     res['ok'] = True
     res['wall'] = time.time() - t0
